@@ -508,16 +508,24 @@ Status of the original statement
   theorem C04_no_false_alarm : SchemaValid S → SpecValid S D → checkOp S D = []
 
 It is FALSE of the model as stated (`C04_no_false_alarm_unconditional_false`). What is proved, for all schemas and
-documents, is `C04_no_false_alarm_partial`: the same conclusion under the decidable side conditions
-`noEmptyUnionB S`, `rootsDefinedB S D`, `constVarDefsB D`, each shown necessary by a witness. Nothing of the
-completeness direction remains OPEN inside the model; in particular the place where the OPEN block of the earlier
-waves suspected a gap — `checkValue` rejecting every literal for an output-kind type — is excluded by `SchemaValid`
-(argument and input-field types are input types) and 5.8.2 (variable types), as `C04_values_complete` shows.
+documents, is `C04_no_false_alarm_partial` (and `C04_no_false_alarm_implemented_rules`; with C03,
+`C04_C03_exact` in Props/C04Exact.lean, which additionally assumes `Doc.NonEmptySelections D`): the same conclusion
+under the decidable side conditions (a) `noEmptyUnionB S`, (b) `rootsDefinedB S D`, (c) `constVarDefsB D`, each shown
+necessary by a witness. Apart from these side conditions no part of the completeness direction of the MODEL is left
+to K/O: every component of `checkOp` has its completeness theorem above (`checkValue` never meets an output-kind type:
+`SchemaValid` makes argument and input-field types input types, 5.8.2 the variable types — `C04_values_complete`).
 
-Carried by K/O only (not by proof): that the model is the Rust code (K), and that the real parser produces only
-documents satisfying (c) or, if not, that the real checker's `UnknownVariable` on them is the intended behaviour;
-that schemas accepted by the real schema check satisfy (a) (`union U =` is accepted by grammar and schema check,
-so (a) is an assumption on the schema, see design-notes/C04.md).
+OPEN — carried by K/O only (not by proof):
+* the model is the Rust code (K), `Model/IntLit.lean` = Rust's `str::parse::<i32>` included;
+* (a): schemas accepted by the real schema check need not satisfy it (`union U =` is accepted by grammar and
+  `check_union`), so it is an assumption on the schema (design-notes/C04.md);
+* (b): an assumption on schema + document (the October-2021 rules transcribed in `SpecValid` have no "operation
+  type existence" rule); the real checker's `NoRootType` on inputs violating it is taken as intended;
+* (c): the nitrogql parser does NOT enforce it (it parses `query ($a: Int = $a)`); the real checker's
+  `UnknownVariable` on such documents is taken as intended;
+* `SpecValid` is the trusted transcription; its 5.3.2 member is a sufficient check, stronger than the specification;
+* `#import` resolution and the `nitrogql check` command are not modelled (import stream and CLI leg of K/O; the open
+  finding `O:cli:import-file-not-found@dotdot-globs` of known-findings.txt lives there).
 -/
 
 end NitroVerif.CheckOp
